@@ -118,7 +118,7 @@ PAD = 12
 
 
 # classes on whose encodings llvm-mc 14 is known to crash (found by the bisection below; listed to save time)
-LLVM_CRASHES = {}
+LLVM_CRASHES = {"msp430": {"Push"}, "avr": {"Ldd_y", "Ldd_z", "Std_y", "Std_z"}}
 
 
 class LlvmCrash(Exception):
@@ -192,7 +192,7 @@ def disassemble_objdump(isa, cfg, byte_strings, workdir):
                        capture_output=True, text=True)
     if p.returncode != 0:
         raise RuntimeError(f"llvm-mc {isa}: {p.stderr[-300:]}")
-    p = subprocess.run(["llvm-objdump", "-d", "--no-show-raw-insn", *cfg.get("objdump", []),
+    p = subprocess.run(["llvm-objdump", "-d", "-z", "--no-show-raw-insn", *cfg.get("objdump", []),
                         *(["--mattr=" + cfg["mattr"]] if cfg["mattr"] else []), str(obj)], capture_output=True, text=True)
     if p.returncode != 0:
         raise LlvmCrash(p.stderr[-200:])
@@ -410,6 +410,8 @@ def compare(isa, ptext, ltext, has_label, vocab=frozenset()):
     for a, b in zip(pi, li):
         if a == b:
             continue
+        if any(b == a - a % k for k in (2, 4, 8)):
+            return "unknown_immediate_alignment", f"{a} vs {b}"     # low bits of a scaled offset dropped: C10's subject
         if a != 0 and b != 0 and (a % b == 0 or b % a == 0):
             return "unknown_immediate_scaled", f"{a} vs {b}"
         if (a - b) % 16 == 0 or (a - b) % 256 == 0:
